@@ -1,12 +1,15 @@
 """C15 - captured errors tick once, where they happen, and do not disturb the rest."""
 import engine_common as ec
 import engine_plugin as ep
+import os
+import c10 as mp
+from vlib import Stream, BUILD, model_cmd
 
 ID = "C15"
-LEAN_MODULES = ["HgVerif.Props.C15", "HgVerif.Props.C02Fail", "HgVerif.Props.C15Flow", "HgVerif.Model.Engine", "HgVerif.Model.Extracted"]
+LEAN_MODULES = ["HgVerif.Props.C15", "HgVerif.Props.C02Fail", "HgVerif.Props.C15Flow", "HgVerif.Props.C10", "HgVerif.Model.Engine", "HgVerif.Model.Extracted"]
 THEOREMS = ["HgVerif.Tie.tie_resumeChecksFailed", "HgVerif.Sched.failed_cycle_restarts", "HgVerif.Sched.stale_cursor_skips_prefix",
-            "HgVerif.Sched.fresh_cycle_scans_all", "HgVerif.Sched.armed_wakeup_survives_failure", "HgVerif.Tie.tie_failKeepsWakeups", "HgVerif.Flow.sol_agree_on", "HgVerif.Flow.cycle_noninterference", "HgVerif.Flow.idle_cycle_keeps", "HgVerif.Sched.fresh_when_cursor_zero", "HgVerif.Sched.stale_cursor_witness"]
-CXX_TARGETS = ["hgv_engine"]
+            "HgVerif.Sched.fresh_cycle_scans_all", "HgVerif.Sched.armed_wakeup_survives_failure", "HgVerif.Tie.tie_failKeepsWakeups", "HgVerif.Flow.sol_agree_on", "HgVerif.Flow.cycle_noninterference", "HgVerif.Flow.idle_cycle_keeps", "HgVerif.MapNode.map_error_keyed", "HgVerif.Sched.fresh_when_cursor_zero", "HgVerif.Sched.stale_cursor_witness"]
+CXX_TARGETS = ["hgv_engine", "hgv_map"]
 USES_EXTRACT = True
 RULE = ("generated programs with a capturing node (exception_time_series) or a try_except-wrapped chain sub-graph whose "
         "thrower fails on a random set of its evaluations (first, consecutive, later), failing node at child index 0 and > 0, "
@@ -34,21 +37,42 @@ def streams(rng, tier, seed):
     progs = [ec.gen_try(rng, "try" if i % 3 else "errts") for i in range(n)]
     progs += [ec.gen_sched_capture(rng) for _ in range(n // 2)]     # capturing nodes that own a scheduler
     progs += [ec.gen_try_sched(rng) for _ in range(n // 2)]         # wake-ups pending beside a failing node in a wrapped sub-graph
-    return [ec.engine_stream("engine-capture", progs)]
+    # "in a keyed map an error in one key's child is reported under that key only": the map_ harness of C10 with
+    # children that throw (several keys failing in one cycle, failures next to removals, recovery)
+    nm = 80 if tier == "quick" else 2000
+    mcases = [mp.gen_case(rng, 700000 + i, tier, rng.choice(["neg", "neg", "negecho"])) for i in range(nm)]
+    return [ec.engine_stream("engine-capture", progs),
+            Stream("map-keyed-errors", [os.path.join(BUILD, "hgv_map")], model_cmd("C10"), mcases, timeout=3000)]
 
 
 _mon = ep.monitor_for(ID)
 
 
 def monitor(stream, case, out):
+    if stream == "map-keyed-errors":
+        return mp.monitor(stream, case, out)
     # a captured failure must not disturb the failing node's own later wake-ups either:
     # for capture programs every deviation from the dataflow reading belongs to C15
     dev, _ = ep.deviations(case, out)
     return ["[%s] %s" % (c, m) for c, m in dev if c in ("error", "times", "userrun", "result")][:3]
-features = ep.features
-alarm_filter = ep.alarm_filter
+def features(stream, case, out):
+    return mp.features(stream, case, out) if stream == "map-keyed-errors" else ep.features(stream, case, out)
+
+
+def alarm_filter(stream, case, impl_out, model_out):
+    if stream == "map-keyed-errors":
+        return mp.alarm_filter(stream, case, impl_out, model_out)
+    return ep.alarm_filter(stream, case, impl_out, model_out)
 
 
 def nontrivial(stream, case, out):
+    if stream == "map-keyed-errors":
+        return mp.nontrivial(stream, case, out)
     return " X " in " " + ec.trace_of(out) and ep.nontrivial(stream, case, out)
-valid_case = ep.valid_case
+
+
+def valid_case(stream, case, impl_out, model_out):
+    if stream == "map-keyed-errors":
+        f = getattr(mp, "valid_case", None)
+        return f(stream, case, impl_out, model_out) if f else True
+    return ep.valid_case(stream, case, impl_out, model_out)
